@@ -40,6 +40,10 @@ SCEN = {
     "cell_unequal_axial": ("cell_small", [("branches", "axial_resistivity"), ("b1", "Leak_eLeak")], 1),
     # a channel whose dynamics read a stored membrane current (i_Ca), and a loss on recorded currents
     "comp_pump": ("comp_pump", [("all", "CaL_gCaL"), ("all", "radius"), ("all", "v")], 2),
+    # capacitance as the ONLY trainable of a multi-compartment module (no geometry key in the same call): the axial
+    # conductances depend on it through the 1/c_m normalisation
+    "branch2_cap_only": ("branch2_hh", [("all", "capacitance")], 2),
+    "cell_cap_only": ("cell_small", [("b1", "capacitance")], 1),
     "net_tanh": ("net2_tanh", [("syn", "TanhRateSynapse_gS"), ("syn", "TanhRateSynapse_slope"), ("cell0", "radius")], 1),
 }
 
@@ -263,6 +267,8 @@ def families():
             ck = [[steps], [2, 2]] if quick else [[steps], [steps + 1], [2, 2], [1, steps], [steps, 1], [2, 2, 2]]
             ck = [c for c in ck if int(np.prod(c)) >= steps]
             if quick and sc == "comp_pump" and solver == "crank_nicolson":
+                continue
+            if sc in ("branch2_cap_only", "cell_cap_only") and (vs == "jax.sparse" or (quick and solver == "crank_nicolson")):
                 continue
             insts.append({"scenario": sc, "solver": solver, "voltage_solver": vs, "ckpts": ck, "definedness": sc in ("comp_hh", "branch2_hh") and solver == "bwd_euler"})
     return insts
